@@ -21,7 +21,7 @@ use crate::{
     util::{RecordingHasher, StaticArena},
 };
 
-const RULE: &str = "cases are triples of keys decoded from a choice sequence: a base (name, label list of length 0..10 over a tiny alphabet so repeats collide) and two keys derived from it by re-construction through another path, label permutation, adjacent swap, single-field edit or independent draw; each key is built through one of 10 construction paths (one of them takes static parts as prefix views of shared buffers, so distinct strings may share an address). Non-trivial = at least two of the three keys have >= 2 labels and either share a label name inside one key or are model-equal to another key of the triple. Distinct = distinct decoded triples (hash of the decoded case). Race lane: 2-3 threads make the first get_hash()/clone calls on one shared static key under a generated schedule; non-trivial = a context switch happened between the two stores of get_hash.";
+const RULE: &str = "cases are triples of keys decoded from a choice sequence: a base (name, label list of length 0..10, in 4 % of the cases 20..49, over a tiny alphabet so repeats collide) and two keys derived from it by re-construction through another path, label permutation, adjacent swap, single-field edit or independent draw; each key is built through one of 10 construction paths (one of them takes static parts as prefix views of shared buffers, so distinct strings may share an address). Non-trivial = at least two of the three keys have >= 2 labels and either share a label name inside one key or are model-equal to another key of the triple. Distinct = distinct decoded triples (hash of the decoded case). Race lane: 2-3 threads make the first get_hash()/clone calls on one shared static key under a generated schedule; non-trivial = a context switch happened between the two stores of get_hash.";
 
 const NAMES: [&str; 6] = ["", "a", "b", "ab", "é", "A"];
 const LKEYS: [&str; 6] = ["a", "b", "c", "", "é", "ab"];
@@ -69,7 +69,9 @@ fn dec_labels(src: &mut Source) -> Vec<(String, String)> {
         40..=79 => 1,
         80..=139 => 2,
         140..=209 => 3 + src.below(5),
-        _ => 8 + src.below(3),
+        210..=244 => 8 + src.below(3),
+        // long lists: sorting implementations switch algorithm around 20 elements
+        _ => 20 + src.below(30),
     };
     (0..n).map(|_| (src.pick(&LKEYS).to_string(), src.pick(&LVALS).to_string())).collect()
 }
@@ -611,7 +613,7 @@ pub fn run(cfg: &RunCfg, replay: Option<&str>) -> i32 {
     let r = pr.run_regressions();
     pr.push(r);
     let c = pr.cfg.clone();
-    let r = run_lane(&c, "C03", &Lane { name: "triples", cases: c.cases(2_000_000, 40_000_000), max_len: 96, sched_len: 0, workers: 0, f: &case_triples });
+    let r = run_lane(&c, "C03", &Lane { name: "triples", cases: c.cases(2_000_000, 40_000_000), max_len: 240, sched_len: 0, workers: 0, f: &case_triples });
     pr.push(r);
     let r = run_lane(&c, "C03", &Lane { name: "hash-race", cases: c.cases(200_000, 5_000_000), max_len: 40, sched_len: 24, workers: 0, f: &case_race });
     pr.push(r);
